@@ -50,7 +50,7 @@ impl PrattParser {
 fn c_level(r: Rule) -> u32 {
     match r {
         Rule::comma => 1,
-        Rule::assign | Rule::mass | Rule::pass | Rule::andass | Rule::orass | Rule::xorass | Rule::blsass | Rule::brsass => 2,
+        Rule::assign | Rule::mass | Rule::pass | Rule::mulass | Rule::divass | Rule::andass | Rule::orass | Rule::xorass | Rule::blsass | Rule::brsass => 2,
         Rule::ternary_cond1 | Rule::ternary_cond2 => 3,
         Rule::lor => 4, Rule::land => 5, Rule::or => 6, Rule::xor => 7, Rule::and => 8,
         Rule::eq | Rule::neq => 9,
@@ -164,7 +164,7 @@ def build(repo):
     for name in ("pratt", "pratt_init_value", "calculator"):
         cuts[name] = f.stmt(r"let %s = PrattParser::new\(\)" % name, s, cb, desc="compile(): let %s = PrattParser::new()…;" % name)
     rules = sorted(set(re.findall(r"\bRule::(\w+)", "".join(c.text for c in cuts.values()))))
-    fixed = ["comma", "assign", "mass", "pass", "andass", "orass", "xorass", "blsass", "brsass", "ternary_cond1", "ternary_cond2", "lor", "land", "or", "xor", "and", "eq", "neq",
+    fixed = ["comma", "assign", "mass", "pass", "mulass", "divass", "andass", "orass", "xorass", "blsass", "brsass", "ternary_cond1", "ternary_cond2", "lor", "land", "or", "xor", "and", "eq", "neq",
              "gt", "gte", "lt", "lte", "brs", "bls", "add", "sub", "mul", "div", "neg", "not", "bnot", "mmp", "ppp", "deref", "addr", "sizeof", "call", "mm", "pp"]
     allr = fixed + [r for r in rules if r not in fixed]
     text = SHIM % {"rules": ", ".join(allr), "nall": len(allr), "all": ", ".join("Rule::" + r for r in allr),
